@@ -312,7 +312,7 @@ impl<'a> World<'a> {
         self.prev = post;
     }
 
-    pub fn record_intended(&mut self, i: usize, opts: &AddOpts, pre_len: usize) {
+    pub fn record_intended(&mut self, i: usize, opts: &AddOpts, pre_len: usize, pre_base: usize) {
         let os_ports: Vec<u16> = self
             .os
             .lock()
@@ -326,7 +326,7 @@ impl<'a> World<'a> {
                     e.name.clone(),
                     Intended {
                         opts: opts.clone(),
-                        ordinal: (e.number as usize).saturating_sub(pre_len + 1) as u16,
+                        ordinal: (e.number as usize).saturating_sub(pre_base + 1) as u16,
                         nat: self.nat,
                         os_ports: os_ports.clone(),
                         add_step: i,
